@@ -90,7 +90,7 @@ func (n *node[T]) Methods() []string { return methodIndexes[n.methodIndex].metho
 
 // 添加一个处理函数
 func (n *node[T]) addMethods(h T, pattern string, ms []types.Middleware[T], methods ...string) error {
-	for _, m := range methods {
+	for i, m := range methods { // 先验证所有的请求方法，保证出错时不会只添加了部分内容。
 		if m == http.MethodOptions || m == http.MethodHead || (n.root.hasTrace && m == http.MethodTrace) {
 			return fmt.Errorf("无法手动添加 OPTIONS/HEAD/TRACE 请求方法")
 		}
@@ -98,10 +98,12 @@ func (n *node[T]) addMethods(h T, pattern string, ms []types.Middleware[T], meth
 			return fmt.Errorf("该请求方法 %s 不被支持", m)
 		}
 
-		if _, found := n.handlers[m]; found {
+		if _, found := n.handlers[m]; found || slices.Contains(methods[:i], m) {
 			return fmt.Errorf("该请求方法 %s 已经存在", m)
 		}
+	}
 
+	for _, m := range methods {
 		if m == http.MethodGet {
 			n.handlers[http.MethodHead] = ApplyMiddleware(h, http.MethodHead, pattern, n.root.Name(), ms...)
 		}
